@@ -303,6 +303,167 @@ def callee_of(t):
     return t.get("callee")
 
 
+# ------------------------------------------------------------------------------------------------------------------
+# Inlining of newly extracted private helpers
+#
+# The rules anchor on functions (`try_from`, `try_from_banks`, ...).  When a maintainer moves part of such a function
+# into a new private helper, every guard, store and obligation of that part moves with it.  To keep the anchors where
+# the rules look, a call to a private workspace function that is *not* one of the call boundaries the spec tables are
+# written against (tables/helper_boundaries.json: the private functions that exist in the pinned tree, plus anything
+# the specs or rule packs name) is expanded in place in the caller's MIR: parameters become assignments, the callee's
+# blocks are appended with renumbered locals and blocks, each `return` assigns the destination and jumps to the call's
+# continuation.  The helper's own body stays in the program (its callers are recorded in Program.inlined).
+
+def _remap_place(pl, loff):
+    return {"l": pl["l"] + loff, "pr": [dict(e, l=e["l"] + loff) if e.get("k") == "index" and "l" in e else e for e in pl["pr"]]}
+
+
+def _remap(x, loff, boff, owner=None):
+    """deep copy of a MIR JSON fragment of the callee with locals shifted by loff"""
+    if isinstance(x, dict):
+        if "l" in x and "pr" in x and isinstance(x.get("pr"), list):
+            return _remap_place(x, loff)
+        out = {k: _remap(v, loff, boff, owner) for k, v in x.items()}
+        if "promoted" in out and owner is not None and "promoted_owner" not in out:
+            out["promoted_owner"] = owner          # promoted constants stay those of the helper
+        return out
+    if isinstance(x, list):
+        return [_remap(v, loff, boff, owner) for v in x]
+    return x
+
+
+def _remap_term(t, loff, boff, owner=None):
+    t2 = _remap(t, loff, boff, owner)
+    k = t2.get("k")
+    if k in ("goto", "drop", "assert", "call"):
+        if t2.get("t") is not None:
+            t2["t"] = t2["t"] + boff
+    if k == "switch":
+        t2["vs"] = [[v, b + boff] for v, b in t2["vs"]]
+        t2["otherwise"] = t2["otherwise"] + boff
+    for key in ("unwind", "cleanup_bb"):
+        if isinstance(t2.get(key), int):
+            t2[key] = t2[key] + boff
+    return t2
+
+
+def _helper_boundaries():
+    pth = os.path.join(build.VERIF, "tables", "helper_boundaries.json")
+    try:
+        with open(pth) as fh:
+            return set(json.load(fh)["functions"])
+    except Exception:
+        return None
+
+
+def _inline_new_helpers(prog, max_depth=3):
+    bounds = _helper_boundaries()
+    if bounds is None:
+        return
+    def inlinable(c):
+        h = prog.bodies.get(c)
+        if h is None or c in bounds or h.kind not in ("Fn", "AssocFn") or h.j.get("is_pub") or h.j.get("impl_trait"):
+            return None
+        if "::tests::" in c or len(h.blocks) > 80 or any(loc["ty"].get("k") == "param" for loc in h.locals[:h.argc + 1]):
+            return None
+        return h
+    for path, body in list(prog.bodies.items()):
+        if "::tests::" in path or inlinable(path) is not None and False:
+            continue
+        chain = {path}
+        for _ in range(max_depth):
+            todo = []
+            for bi, blk in enumerate(body.blocks):
+                t = blk["t"]
+                if t.get("k") == "call" and t.get("t") is not None and t.get("dest") is not None:
+                    c = t.get("resolved") or t.get("callee") or ""
+                    h = inlinable(c)
+                    if h is not None and c not in chain and h is not body and len(t["args"]) == h.argc:
+                        todo.append((bi, c, h))
+            if not todo:
+                break
+            for bi, c, h in todo:
+                blk = body.blocks[bi]
+                t = blk["t"]
+                loff, boff = len(body.locals), len(body.blocks)
+                body.locals.extend(json.loads(json.dumps(h.locals)))
+                line = t.get("line")
+                stm = list(blk["s"])
+                for k_, a in enumerate(t["args"]):
+                    stm.append({"k": "assign", "p": {"l": loff + k_ + 1, "pr": []}, "rv": {"k": "use", "o": a}, "line": line})
+                blk["s"] = stm
+                # `helper(..)?`: the continuation is `r = Try::branch(move dest); switch discriminant(r)`.  A return block
+                # of the helper that has just built `Ok(..)` / `Err(..)` gets its own copy of those two blocks with the
+                # switch already resolved, so that the caller's Ok path stays dominated by the helper's guards.
+                tq = None
+                cblk = body.blocks[t["t"]] if 0 <= t["t"] < len(body.blocks) else None
+                if cblk is not None and not cblk["s"] and cblk["t"].get("k") == "call" and (cblk["t"].get("callee") or "").endswith("ops::Try::branch") \
+                        and cblk["t"]["args"] and cblk["t"]["args"][0].get("p") == t["dest"] and cblk["t"].get("t") is not None:
+                    dblk = body.blocks[cblk["t"]["t"]]
+                    if len(dblk["s"]) == 1 and dblk["s"][0]["rv"].get("k") == "discr" and dblk["s"][0]["rv"]["p"] == cblk["t"]["dest"] \
+                            and dblk["t"].get("k") == "switch" and dblk["t"]["d"].get("p") == dblk["s"][0]["p"]:
+                        arms = dict((v, b_) for v, b_ in dblk["t"]["vs"])
+                        if 0 in arms and 1 in arms:
+                            tq = (cblk, dblk, arms)
+                new_blocks = []
+                for hb in h.blocks:
+                    nb = {"s": [_remap(st, loff, boff, c) for st in hb["s"]], "t": _remap_term(hb["t"], loff, boff, c), "cleanup": hb.get("cleanup", False)}
+                    if nb["t"].get("k") == "return":
+                        nb["s"] = nb["s"] + [{"k": "assign", "p": t["dest"], "rv": {"k": "use", "o": {"k": "move", "p": {"l": loff, "pr": []}}}, "line": line}]
+                        nb["t"] = {"k": "goto", "t": t["t"], "line": line}
+                        variant = None
+                        for st in hb["s"]:
+                            if st["k"] == "assign" and st["p"] == {"l": 0, "pr": []}:
+                                rv = st["rv"]
+                                variant = None
+                                if rv.get("k") == "aggr" and rv.get("ak") == "adt" and str(rv.get("p", "")).endswith(("result::Result", "option::Option")):
+                                    vn = rv.get("vname")
+                                    variant = 0 if vn in ("Ok", "Some") else 1 if vn in ("Err", "None") else None
+                        if tq is not None and variant is not None:
+                            nb["_thread"] = variant
+                    new_blocks.append(nb)
+                body.blocks.extend(new_blocks)
+                if tq is not None:
+                    cblk, dblk, arms = tq
+
+                    def variant_of(stmts, local0):
+                        v_ = None
+                        for st in stmts:
+                            if st["k"] == "assign" and st["p"] == {"l": local0, "pr": []}:
+                                rv = st["rv"]
+                                v_ = None
+                                if rv.get("k") == "aggr" and rv.get("ak") == "adt" and str(rv.get("p", "")).endswith(("result::Result", "option::Option")):
+                                    vn = rv.get("vname")
+                                    v_ = 0 if vn in ("Ok", "Some") else 1 if vn in ("Err", "None") else None
+                        return v_
+                    # rustc merges the returns of a function into one block: thread from its predecessors, each of
+                    # which has just assigned the variant
+                    ret_idx = {boff + i for i, hb in enumerate(h.blocks) if hb["t"].get("k") == "return"}
+                    for i, nb in enumerate(list(new_blocks)):
+                        if nb.get("_thread") is None and nb["t"].get("k") == "goto" and nb["t"]["t"] in ret_idx and (boff + i) not in ret_idx:
+                            rb = new_blocks[nb["t"]["t"] - boff]
+                            v = variant_of(nb["s"], loff)
+                            if v is not None and variant_of(rb["s"][:-1], loff) is None:
+                                nb["s"] = nb["s"] + json.loads(json.dumps(rb["s"]))
+                                nb["_thread"] = v
+                    for nb in new_blocks:
+                        v = nb.pop("_thread", None)
+                        if v is None:
+                            continue
+                        ci_ = len(body.blocks)
+                        c2 = {"s": [], "t": dict(json.loads(json.dumps(cblk["t"])), t=ci_ + 1), "cleanup": False}
+                        d2 = {"s": json.loads(json.dumps(dblk["s"])), "t": {"k": "goto", "t": arms[v], "line": line}, "cleanup": False}
+                        body.blocks.append(c2)
+                        body.blocks.append(d2)
+                        nb["t"] = {"k": "goto", "t": ci_, "line": line}
+                for nb in new_blocks:
+                    nb.pop("_thread", None)
+                blk["t"] = {"k": "goto", "t": boff, "line": line}
+                prog.inlined.setdefault(c, set()).add(path)
+                chain.add(c)
+            body._succ = body._pred = body._idom = body._ipdom = body._rpo = None
+
+
 class Program:
     def __init__(self, fdir):
         self.fdir = fdir
@@ -328,6 +489,8 @@ class Program:
             for k in d["consts"]:
                 self.consts[k["path"]] = k
         self._callers = None
+        self.inlined = {}        # helper path -> callers it was inlined into
+        _inline_new_helpers(self)
 
     def body(self, path):
         b = self.bodies.get(path)
